@@ -11,6 +11,10 @@ EXPLANATION = ('R1 every socket send in library code flows, on every path, into 
 def check(ctx, rep):
     rep.trust('atomic fetch_add is exact under concurrency; a datagram send is all-or-nothing')
     K.rule_pairing(ctx, rep)
+    # "the counts of the emits that returned Ok and Err": an unbuffered emit makes one attempt and returns what the
+    # classifier returns - it cannot fail (or succeed) without being counted
+    from .common import KeepOnly
+    K.rule_unbuffered(ctx, KeepOnly(rep, ('/one-datagram-per-emit', '/returns-socket-result'), 'R1u'))
     K.rule_classification(ctx, rep)
     K.rule_shared_counters(ctx, rep)
     S.rule_D3(ctx, rep, 'R3-D3', methods=('stats',))
